@@ -303,23 +303,23 @@ func runCheck(prop, repo, verif, tier string) int {
 	ev := Evidence{PropertyID: prop, Tier: tier, Seed: seed, Level: "proof", WallS: round3(time.Since(t0).Seconds()), Violations: len(violations)}
 	ev.Assumptions = tb
 	ev.Coverage = map[string]interface{}{
-		"obligations":              nObl,
-		"discharged":               nOK,
-		"checker_cmd":              fmt.Sprintf("/verif/bin/govc check %s --tier %s  (VCs from %s working tree; z3-new 5.1.0 / z3 4.8.12 / cvc5 1.0.3 raced, %d ms per obligation)", prop, tier, repo, timeout),
-		"trusted_base":             tb,
-		"samples":                  samples,
-		"functions_under_contract": funcsUnder,
-		"lemmas":                   lemmas,
-		"by_backend":               byBackend,
-		"solver_time_s":            round3(solverTime),
-		"assumed_contracts":        dedup(assumedContracts),
-		"unverified_functions":     unverified,
+		"obligations":                 nObl,
+		"discharged":                  nOK,
+		"checker_cmd":                 fmt.Sprintf("/verif/bin/govc check %s --tier %s  (VCs from %s working tree; z3-new 5.1.0 / z3 4.8.12 / cvc5 1.0.3 raced, %d ms per obligation)", prop, tier, repo, timeout),
+		"trusted_base":                tb,
+		"samples":                     samples,
+		"functions_under_contract":    funcsUnder,
+		"lemmas":                      lemmas,
+		"by_backend":                  byBackend,
+		"solver_time_s":               round3(solverTime),
+		"assumed_contracts":           dedup(assumedContracts),
+		"unverified_functions":        unverified,
 		"partially_covered_functions": partial,
-		"known_finding_obligations": sortedBoolKeys(knownOblSeen),
-		"vacuity":                  map[string]interface{}{"covers": covers, "sat": coversSat, "declared_dead": deadNotes},
-		"modelling_notes":          dedup(notes),
-		"translation_drops":        translationDrops,
-		"explanation":              "every obligation is generated on this run from the function bodies in the working tree plus the //@ contracts in *_verif.go; a caller sees only its callee's contract",
+		"known_finding_obligations":   sortedBoolKeys(knownOblSeen),
+		"vacuity":                     map[string]interface{}{"covers": covers, "sat": coversSat, "declared_dead": deadNotes},
+		"modelling_notes":             dedup(notes),
+		"translation_drops":           translationDrops,
+		"explanation":                 "every obligation is generated on this run from the function bodies in the working tree plus the //@ contracts in *_verif.go; a caller sees only its callee's contract",
 	}
 	extraEvidence(w, prop, tier, ev.Coverage)
 	os.MkdirAll(filepath.Dir(evPath), 0o755)
